@@ -8,7 +8,7 @@ Definition s_content_type : bytes := ascii [67;111;110;116;101;110;116;45;84;121
 Definition s_cte : bytes :=
   ascii [67;111;110;116;101;110;116;45;84;114;97;110;115;102;101;114;45;69;110;99;111;100;105;110;103]%nat.
 Definition s_multipart : bytes := ascii [109;117;108;116;105;112;97;114;116;47]%nat.          (* "multipart/" *)
-Definition s_boundary : bytes := ascii [98;111;117;110;100;97;114;121;61;34]%nat.             (* boundary=" *)
+Definition s_boundary : bytes := ascii [98;111;117;110;100;97;114;121;61;34]%nat.             (* boundary= followed by a double quote *)
 Definition s_mp_alt : bytes :=
   ascii [109;117;108;116;105;112;97;114;116;47;97;108;116;101;114;110;97;116;105;118;101]%nat.
 Definition s_text_plain : bytes := ascii [116;101;120;116;47;112;108;97;105;110]%nat.
